@@ -357,6 +357,15 @@ def gen_unescape(syn, tier, mode):
         let r = parse_string_literal(s);
         {'assert!(matches!(&r, Ok(crate::value::Value::String(o)) if o.len() == 1 && o.as_bytes()[0] == b0));' if f else ''}
         std::mem::forget(r);""", 5, mandatory=False, quick=False, meta={"literal": "quote, every plain ASCII character, quote"})
+    for nm, byts in (("cr_lf", [13, 10]), ("lf_cr", [10, 13]), ("cr", [13]), ("tab_lf", [9, 10])):
+        arr = ", ".join(str(b) for b in byts)
+        add(f"literal_raw_{nm}", f"""
+        let buf = [34u8, {arr}, 34u8];
+        let s = unsafe {{ core::str::from_utf8_unchecked(&buf) }};
+        let r = parse_string_literal(s);
+        show("literal", &s); show("result", &r);
+        {'assert!(matches!(&r, Ok(crate::value::Value::String(o)) if o.as_bytes() == &[' + arr + ']));' if f else ''}
+        std::mem::forget(r);""", 8, meta={"literal": f"raw line-ending characters {byts} between the quotes are kept verbatim (concrete input)"})
     if not f:
         add("literal_2byte_char_then_escape", """
         let b1 = inp.u8(); assume(b1 < 128);
